@@ -460,3 +460,38 @@ func vpH_c07_merge_chain() {
 	vpFillChain(root, []*yaml.Node{a, c})
 	vpCheckDecode(root)
 }
+
+func init() { vpRegister("c07_merge_seq", vpH_c07_merge_seq) }
+
+// Merge sequences of two or three sources in any order and with repeats, where
+// one source itself merges another: every source contributes the keys nobody
+// before it gave, whether or not it (or what it merges) was already seen.
+func vpH_c07_merge_seq() {
+	leaf := func(anchor string) *yaml.Node {
+		m := vpMapping()
+		m.Anchor = anchor
+		m.Content = append(m.Content, vpScalar(vpStr(1, "a-d")), vpScalar(vpStr(1, "x-y")))
+		return m
+	}
+	c, d := leaf("c"), leaf("d")
+	a := vpMapping()
+	a.Anchor = "a"
+	a.Content = append(a.Content, vpMergeKey(), vpAlias(c), vpScalar(vpStr(1, "a-d")), vpScalar("z"))
+	src := []*yaml.Node{a, c, d}
+	n := vpInt(2, 3)
+	seq := vpSeq()
+	for i := 0; i < n; i++ {
+		seq.Content = append(seq.Content, vpAlias(src[vpInt(0, 2)]))
+	}
+	root := vpMapping()
+	if vpBool() { // the sources were already merged once by an earlier merge key
+		root.Content = append(root.Content, vpMergeKey(), vpAlias(src[vpInt(0, 2)]))
+	}
+	if vpBool() {
+		root.Content = append(root.Content, vpScalar(vpStr(1, "a-d")), vpScalar("o"))
+	}
+	root.Content = append(root.Content, vpMergeKey(), seq)
+	holder := vpMapping()
+	holder.Content = append(holder.Content, vpScalar("c"), c, vpScalar("d"), d, vpScalar("a"), a, vpScalar("r"), root)
+	vpCheckDecode(holder)
+}
